@@ -8,7 +8,7 @@ chooses; entries may arrive with their hash list truncated and are retransmitted
 from trie.exceptions import ValidationError
 from trie.smt import SparseMerkleProof, SparseMerkleTree
 
-from ..core import Violation, hx, unhx
+from ..core import Violation, deep, hx, unhx
 from .c14 import SWorld, gen_history, make_cfg, make_keys, make_values
 
 ID = "C15"
@@ -251,7 +251,7 @@ def generate(rng):
     ks = cfg["ks"]
     keys = make_keys(rng, ks)
     vals = make_values(rng, unhx(cfg["default"]))
-    n = rng.choice([8, 12, 20, 30]) if ks <= 8 else rng.choice([6, 10, 14])
+    n = rng.choice(deep([8, 12, 20, 30], [12, 20, 40, 60])) if ks <= 8 else rng.choice(deep([6, 10, 14], [10, 16, 24]))
     # the stream carries what set()/delete() return, so the writer uses the method syntax
     hist = [dict(c, via="m") if "via" in c else c for c in gen_history(rng, keys, vals, n) if c["op"] in ("set", "del", "reopen")]
     nt = rng.choice([1, 2, 3, 4])
